@@ -408,7 +408,7 @@ func (r *Run) noteWrite(key string, ref string) {
 }
 
 func (r *Run) isFreshRef(ref string) bool {
-	if !strings.HasPrefix(ref, "new_") {
+	if !strings.HasPrefix(ref, "new_") || ref == "new_own" {
 		return false
 	}
 	n := 0
@@ -503,6 +503,7 @@ type Frame struct {
 	top      bool
 	mapIters map[ssa.Value]*mapIter
 	curCall     *ssa.CallCommon
+	curAppendArg ssa.Value
 	probeSink   func(*State)
 	probeHeader *ssa.BasicBlock
 }
@@ -527,6 +528,7 @@ type loopInfo struct {
 	modLocals []*ssa.Alloc
 	modKeys   []string
 	freshOnly map[string]bool
+	ownedAcc  []*ssa.Alloc
 	decHead   Term
 	nBack     int
 }
